@@ -32,6 +32,7 @@ def run(ctx):
     R4 = rep.rule('C10.R4', 'caches without a reloader: LocalAssetCache, without_hot_reloading, refusing sources', floor=3)
     R5 = rep.rule('C10.R5', 'forgetting is told to the reloader: every destroying operation notifies, and the handler mutates the graph', floor=3)
     R6 = rep.rule('C10.R6', 'registering as reloadable implies caching in the same operation', floor=2)
+    S1 = rep.rule('C05.R2', 'registration happens exactly after a successful load, with the dependencies of that load (shared with C05)', floor=1)
     R7 = rep.rule('C10.R7', 'type descriptors are honest: hot_reloaded mirrors the declared HOT_RELOADED constants, which forward from Asset to Compound to Storable', floor=6)
     for cfg, F in ctx.cfgs():
         hr = 'hot-reloading' in ctx.cfg_features[cfg]
@@ -43,6 +44,11 @@ def run(ctx):
             continue
         r2(R2, cfg, F)
         r3(R3, cfg, F)
+        # registration only after a successful load (a failed load that registers makes the key reloadable although
+        # nothing was cached: a fallback value stored with get_or_insert is then overwritten)
+        from c05 import r2 as register_only_after_ok
+        register_only_after_ok(S1, cfg, F)
+        S1.finish_cfg(cfg)
         r4(R4, cfg, F)
         r5(R5, cfg, F)
         r6(R6, cfg, F)
